@@ -132,3 +132,28 @@ MUTANTS = [
                             AKAI_SAT_RESERVED_FLAG_STD, 
                     )"""),
 ]
+
+MUTANTS += [
+    dict(id="c13_reintroduce_roland_fat_cycle", props=["C13", "C07"], file="smpl_extract/roland/s7xx/fat.py",
+         old="""                if subpath_index in subpath_visited:
+                    raise ConstructError("Encountered loop in FAT.")
+""",
+         new="""                if subpath_index in subpath_visited and len(subpath_visited) > 3:
+                    raise ConstructError("Encountered loop in FAT.")
+"""),
+    dict(id="c13_get_path_guard_off", props=["C13", "C07"], file="smpl_extract/util/fat.py",
+         old="""            current_sector = sector_link.next
+            loop_cnt += 1
+""",
+         new="""            current_sector = sector_link.next
+            loop_cnt += (1 if current_sector % 7 else 0)
+"""),
+    dict(id="c06_generated_name_check_off", props=["C06", "C05"], file="smpl_extract/structural.py",
+         old="""                            or next_name in generated_names):""",
+         new="""                            or False):"""),
+    dict(id="c14_no_realign", props=["C14"], file="smpl_extract/akai/file_entry.py",
+         old="""                stream.seek(entry_address + table_entry_size, SEEK_SET)
+""",
+         new="""                stream.seek(entry_address + table_entry_size - (1 if _i > 1 else 0), SEEK_SET)
+"""),
+]
